@@ -201,6 +201,7 @@ struct Value {
     }
 
     Value &operator=(ValueType type) noexcept {
+        reset(); // The previous payload must not be reinterpreted as the new kind's storage.
         setType(type);
         return *this;
     }
